@@ -1,8 +1,10 @@
 -------------------------------- MODULE Link --------------------------------
 (* C06  The virtual link connects the right peers and delivers only between them.
 
-   N stacks (Device / Host / virtual Controller) on one LocalLink.  Every device d owns two
-   addresses, <<d, "pub">> and <<d, "rnd">>.  One action per critical section of the code
+   N stacks (Device / Host / virtual Controller) on one LocalLink.  Every device d owns three
+   addresses: <<d, "pub">>, <<d, "rnd">> (the controller's random address) and <<d, "set">> (the
+   random address of an extended advertising set, HCI_LE_Set_Advertising_Set_Random_Address, which
+   is not the controller's).  One action per critical section of the code
    (bumble/link.py, controller.py, device.py); what travels controller -> host is a FIFO per
    device (evq: order-preserving HCI delays are exactly FIFO non-determinism), what travels on a
    connection from one controller to the other is a FIFO per connection and direction (out).
@@ -16,7 +18,9 @@
                              data, or advertising data followed by scan-response data)
      Call                    Device.connect(address, transport, own_address_type): LE: the
                              controller keeps pending_le_connection; BR/EDR: LMP host connection
-                             request on its way to the owner of the address
+                             request on its way to the owner of the address.  One call per device
+                             AND transport may be awaited at a time (an LE connect next to a page,
+                             possibly to the same peer)
      LinkConnect(d, h)       on_advertising_pdu at an initiating controller whose pending target
                              is the advertiser's address: create_le_connection (CONNECT_IND is
                              broadcast, Connection Complete [central] queued to the host)
@@ -28,6 +32,12 @@
      ClassicAccept(k, h) / ClassicAccepted(k, h)
                              the paged device accepts (Connection Complete there), LMP accepted
                              reaches the initiator (Connection Complete there)
+     ScoCall(k, s)           side s of the open BR/EDR connection k asks for an (e)SCO link on it
+                             (Enhanced Setup Synchronous Connection): a further entry of both
+                             controllers' link tables, with a handle of its own
+     ScoAccept(j, h) / ScoAccepted(j, h)
+                             the peer accepts (Synchronous Connection Complete there), LMP accepted
+                             reaches the requester (Synchronous Connection Complete there)
      HostEvt(d)              the host of d takes the oldest HCI event: 'connection' /
                              'disconnection' events of the Device, or an L2CAP PDU
      RetConnect(d, k)        the awaited Device.connect returns connection k
@@ -42,8 +52,8 @@
                              its way to the peer)
      Quiesce                 nothing is in flight and nothing can move any more
 
-   The handle of a new connection is any handle not used by a connection the controller still
-   holds (AnyHandle) or the lowest such handle (what the code does).
+   The handle of a new link (LE, BR/EDR ACL or (e)SCO) is any handle not used by a link of any
+   kind the controller still holds (AnyHandle) or the lowest such handle (what the code does).
 
    Bugs is empty in the design that is checked.  The named deviations are what the code was
    seen (or could be changed) to do; the self-test turns each on and requires TLC to report the
@@ -59,6 +69,10 @@
      "phantom"          a CONNECT_IND nobody accepts leaves the initiator connected -> BothTold
      "handle_ignores_classic" handle allocation does not look at BR/EDR connections -> Handles
      "no_rsp"           an active scanner gets no scan response                  -> ScanGiven
+     "handle_ignores_sco" handle allocation does not look at (e)SCO links       -> Handles
+     "connect_ignores_transport" a page is resolved by any connection to that peer address -> CallerGets
+     "route_by_controller_addr" find_le_controller looks the destination up among the controllers'
+                        own public / random addresses, not the connections'      -> Delivered / BothTold
 *)
 EXTENDS Naturals, FiniteSets, Sequences, TLC
 
@@ -81,11 +95,15 @@ CONSTANTS
     MaxCalls,    \* Device.connect calls per behaviour
     MaxDisc,     \* disconnect requests per behaviour
     MaxScan,     \* scan mode changes per behaviour
+    MaxSco,      \* (e)SCO links requested per behaviour
     MaxH,        \* connection handles 1..MaxH
     AnyHandle,   \* TRUE: any free handle (what the property allows); FALSE: the lowest (the code)
     Bugs
 
-Kinds  == {"pub", "rnd"}
+Kinds  == {"pub", "rnd", "set"}   \* "set": the own random address of an extended advertising set
+OwnK   == {"pub", "rnd"}          \* what an initiator can use (LE Create Connection own_address_type)
+Trs    == {"le", "br"}            \* what Device.connect can be asked for
+Paged  == {"br", "sco"}           \* links set up by an LMP request / accepted exchange, addressed by BD_ADDR
 Flavs  == {"legacy", "ext"}
 Sides  == {"c", "p"}
 Other(s) == IF s = "c" THEN "p" ELSE "c"
@@ -98,7 +116,7 @@ VARIABLES
     advd,     \* [Devs -> SUBSET (Kinds \X Flavs)] everything d has advertised as so far
     scan,     \* [Devs -> "off" | "passive" | "active"]
     pend,     \* [Devs -> [on, ta, own]]          Controller.pending_le_connection
-    call,     \* [Devs -> [on, tr, ta, own]]      Device.connect awaited
+    call,     \* [Devs -> [Trs -> [on, ta, own]]]  Device.connect awaited, per transport
     conns,    \* Seq of connection records (see NewConn)
     evq,      \* [Devs -> Seq(event)]             HCI events / ACL data controller -> host
     rets,     \* Seq of [d, k, tr, ta]            what the connect calls returned
@@ -111,7 +129,7 @@ vars == <<adv, advd, scan, pend, call, conns, evq, rets, heard, seen, cnt, quies
 
 NoAdv  == [on |-> FALSE, kind |-> "rnd", flav |-> "legacy", stopping |-> FALSE]
 NoPend == [on |-> FALSE, ta |-> NoAddr, own |-> "rnd"]
-NoCall == [on |-> FALSE, tr |-> "le", ta |-> NoAddr, own |-> "rnd"]
+NoCall == [on |-> FALSE, ta |-> NoAddr, own |-> "rnd"]
 
 Ks == 1..Len(conns)
 Dev(k, s)   == IF s = "c" THEN conns[k].c ELSE conns[k].p
@@ -122,14 +140,16 @@ CtlAt(d)    == {ks \in Ends : Dev(ks[1], ks[2]) = d /\ conns[ks[1]].ctl[ks[2]]}
 HostAt(d)   == {ks \in Ends : Dev(ks[1], ks[2]) = d /\ conns[ks[1]].st[ks[2]] = "up"}
 AllCtl      == {ks \in Ends : conns[ks[1]].ctl[ks[2]]}
 
-UsedHandles(d) ==
-    {conns[ks[1]].h[ks[2]] : ks \in {x \in CtlAt(d) : "handle_ignores_classic" \in Bugs => conns[x[1]].tr = "le"}}
+\* allocate_connection_handle looks at every link table of the controller
+Overlooked == (IF "handle_ignores_classic" \in Bugs THEN {"br"} ELSE {}) \cup (IF "handle_ignores_sco" \in Bugs THEN {"sco"} ELSE {})
+UsedHandles(d) == {conns[ks[1]].h[ks[2]] : ks \in {x \in CtlAt(d) : conns[x[1]].tr \notin Overlooked}}
 Free(d) == (1..MaxH) \ UsedHandles(d)
 Lowest(S) == CHOOSE x \in S : \A y \in S : x <= y
 HandleChoices(d) == IF Free(d) = {} THEN {} ELSE IF AnyHandle THEN Free(d) ELSE {Lowest(Free(d))}
 
 NewConn(tr, c, p, ca, pa) ==
-    [tr |-> tr, c |-> c, p |-> p, ca |-> ca, pa |-> pa,
+    [tr |-> tr, c |-> c, p |-> p, ca |-> ca, pa |-> pa,       \* tr: "le" | "br" | "sco"
+     acl  |-> 0,                                        \* (e)SCO link: the BR/EDR connection it was set up on
      link |-> "setup",                                  \* "setup" | "open" | "closed" | "failed"
      ctl  |-> [c |-> FALSE, p |-> FALSE],               \* the controller of that side holds the connection
      h    |-> [c |-> 0, p |-> 0],                       \* its handle there
@@ -149,10 +169,10 @@ Rep(a, rt, what, src) == [a |-> a, rt |-> rt, what |-> what, src |-> src]
 Init ==
     /\ adv = [d \in Devs |-> NoAdv] /\ advd = [d \in Devs |-> {}]
     /\ scan = [d \in Devs |-> "off"]
-    /\ pend = [d \in Devs |-> NoPend] /\ call = [d \in Devs |-> NoCall]
+    /\ pend = [d \in Devs |-> NoPend] /\ call = [d \in Devs |-> [tr \in Trs |-> NoCall]]
     /\ conns = <<>> /\ evq = [d \in Devs |-> <<>>] /\ rets = <<>>
     /\ heard = [d \in Devs |-> {}] /\ seen = [d \in Devs |-> {}]
-    /\ cnt = [adv |-> 0, stop |-> 0, call |-> 0, disc |-> 0, scan |-> 0, send |-> 0]
+    /\ cnt = [adv |-> 0, stop |-> 0, call |-> 0, disc |-> 0, scan |-> 0, send |-> 0, sco |-> 0]
     /\ quiesced = FALSE
 
 \* EagerHost: nothing else moves while an HCI event waits for its host
@@ -164,6 +184,7 @@ StartAdv(d, kind, flav) ==
     /\ Idle
     /\ d \in Advs /\ ~adv[d].on /\ cnt.adv < MaxAdv /\ kind \in AdvKinds
     /\ flav = "ext" => d \in Ext
+    /\ kind = "set" => flav = "ext"                          \* only an advertising set has an address of its own
     /\ adv' = [adv EXCEPT ![d] = [on |-> TRUE, kind |-> kind, flav |-> flav, stopping |-> FALSE]]
     /\ advd' = IF Scanning \/ StaleAdv THEN [advd EXCEPT ![d] = @ \cup {<<kind, flav>>}] ELSE advd
     /\ cnt' = [cnt EXCEPT !.adv = @ + 1]
@@ -245,21 +266,22 @@ Linked(d, e, tr) ==     \* a connection of that transport between d and e exists
 \* e is itself trying to reach d on that transport.  Two devices that initiate towards each other
 \* at the same time are outside the model (see notes/C06.md: the controller would hold two LE
 \* connections under one peer-address key)
-Crossing(d, e, tr) == call[e].on /\ call[e].tr = tr /\ Owner(call[e].ta) = d
+Crossing(d, e, tr) == call[e][tr].on /\ Owner(call[e][tr].ta) = d
 
 Call(d, tr, ta, own) ==
     /\ Idle
-    /\ d \in Inits /\ ~call[d].on /\ cnt.call < MaxCalls /\ tr \in Transports
-    /\ Owner(ta) \in Devs \ {d} /\ ta[2] \in Kinds /\ own \in Kinds
+    /\ d \in Inits /\ tr \in Transports /\ ~call[d][tr].on /\ cnt.call < MaxCalls
+    /\ Owner(ta) \in Devs \ {d} /\ ta[2] \in Kinds /\ own \in OwnK
     /\ tr = "le" => own \in OwnKinds /\ ta[2] \in AdvKinds
     /\ ~Linked(d, Owner(ta), tr) /\ ~Crossing(d, Owner(ta), tr)
     /\ \/ /\ tr = "le" /\ ~pend[d].on
           /\ pend' = [pend EXCEPT ![d] = [on |-> TRUE, ta |-> ta, own |-> own]]
           /\ UNCHANGED conns
-       \/ /\ tr = "br" /\ ta[2] = "pub" /\ own = "pub" /\ Len(conns) < MaxConns
+       \* (the virtual controller refuses a page while an LE create-connection is pending: Controller Busy)
+       \/ /\ tr = "br" /\ ta[2] = "pub" /\ own = "pub" /\ Len(conns) < MaxConns /\ ~pend[d].on
           /\ conns' = Append(conns, NewConn("br", d, Owner(ta), <<d, "pub">>, ta))
           /\ UNCHANGED pend
-    /\ call' = [call EXCEPT ![d] = [on |-> TRUE, tr |-> tr, ta |-> ta, own |-> own]]
+    /\ call' = [call EXCEPT ![d][tr] = [on |-> TRUE, ta |-> ta, own |-> own]]
     /\ cnt' = [cnt EXCEPT !.call = @ + 1]
     /\ quiesced' = FALSE
     /\ UNCHANGED <<adv, advd, scan, evq, rets, heard, seen>>
@@ -310,24 +332,61 @@ ConnFail(k) ==
     /\ quiesced' = FALSE
     /\ UNCHANGED <<adv, advd, scan, pend, call, rets, heard, seen, cnt>>
 
-ClassicAccept(k, h) ==
+\* a link set up by an LMP request: the requested side accepts ...
+AcceptAt(k, h) ==
     /\ Idle
-    /\ k \in Ks /\ conns[k].tr = "br" /\ conns[k].link = "setup" /\ ~conns[k].ctl.p
+    /\ conns[k].tr \in Paged /\ conns[k].link = "setup" /\ ~conns[k].ctl.p
     /\ h \in HandleChoices(conns[k].p)
     /\ conns' = [conns EXCEPT ![k].ctl.p = TRUE, ![k].h.p = h]
     /\ evq' = [evq EXCEPT ![conns[k].p] = Append(@, EvConn(k, "p"))]
     /\ quiesced' = FALSE
     /\ UNCHANGED <<adv, advd, scan, pend, call, rets, heard, seen, cnt>>
 
+\* ... and its LMP accepted reaches the requester
 \* (the accepting side may already have disconnected again: its LMP accepted still arrives first)
-ClassicAccepted(k, h) ==
+AcceptedAt(k, h) ==
     /\ Idle
-    /\ k \in Ks /\ conns[k].tr = "br" /\ conns[k].h.p # 0 /\ conns[k].h.c = 0
+    /\ conns[k].tr \in Paged /\ conns[k].h.p # 0 /\ conns[k].h.c = 0
     /\ h \in HandleChoices(conns[k].c)
     /\ conns' = [conns EXCEPT ![k].ctl.c = TRUE, ![k].h.c = h, ![k].link = IF @ = "setup" THEN "open" ELSE @]
     /\ evq' = [evq EXCEPT ![conns[k].c] = Append(@, EvConn(k, "c"))]
     /\ quiesced' = FALSE
     /\ UNCHANGED <<adv, advd, scan, pend, call, rets, heard, seen, cnt>>
+
+ClassicAccept(k, h) ==
+    /\ k \in Ks /\ conns[k].tr = "br"
+    /\ AcceptAt(k, h)
+ClassicAccepted(k, h) ==
+    /\ k \in Ks /\ conns[k].tr = "br"
+    /\ AcceptedAt(k, h)
+
+\* ---- (e)SCO links: further entries of the link tables of both controllers
+\* the (e)SCO link on BR/EDR connection k is being set up, up, or being torn down
+ScoLive(k) == \E j \in Ks : /\ conns[j].tr = "sco" /\ conns[j].acl = k
+                             /\ \/ conns[j].link \in {"setup", "open"}
+                                \/ \E s \in Sides : conns[j].ctl[s] \/ conns[j].want[s] \/ conns[j].out[s] # <<>>
+
+\* HCI_Enhanced_Setup_Synchronous_Connection on side s of connection k (both controllers hold k and
+\* nobody has asked to disconnect it; the controller keeps one (e)SCO link per peer)
+ScoCall(k, s) ==
+    /\ Idle
+    /\ k \in Ks /\ conns[k].tr = "br" /\ conns[k].link = "open" /\ conns[k].st[s] = "up"
+    /\ \A x \in Sides : conns[k].ctl[x] /\ ~conns[k].want[x] /\ conns[k].st[x] # "down"
+    /\ cnt.sco < MaxSco /\ Len(conns) < MaxConns
+    /\ ~Linked(Dev(k, s), Dev(k, Other(s)), "sco")
+    /\ LET d == Dev(k, s)
+           e == Dev(k, Other(s))
+       IN conns' = Append(conns, [NewConn("sco", d, e, <<d, "pub">>, <<e, "pub">>) EXCEPT !.acl = k])
+    /\ cnt' = [cnt EXCEPT !.sco = @ + 1]
+    /\ quiesced' = FALSE
+    /\ UNCHANGED <<adv, advd, scan, pend, call, evq, rets, heard, seen>>
+
+ScoAccept(k, h) ==
+    /\ k \in Ks /\ conns[k].tr = "sco"
+    /\ AcceptAt(k, h)
+ScoAccepted(k, h) ==
+    /\ k \in Ks /\ conns[k].tr = "sco"
+    /\ AcceptedAt(k, h)
 
 -----------------------------------------------------------------------------
 \* ---- the host side
@@ -341,26 +400,28 @@ HostEvt(d) ==
     /\ quiesced' = FALSE
     /\ UNCHANGED <<adv, advd, scan, pend, call, rets, heard, seen, cnt>>
 
-\* which connection may be handed to the caller at d
-Returnable(d, k) ==
-    /\ ~conns[k].ret
+\* which connection may be handed to the caller of connect(transport = tr) at d
+Returnable(d, tr, k) ==
+    /\ ~conns[k].ret /\ conns[k].tr \in Trs
     /\ IF "any_conn_resolves" \in Bugs
-       THEN \E s \in Sides : Dev(k, s) = d /\ conns[k].st[s] # "none" /\ (call[d].tr = "le" \/ conns[k].tr = "br")
+       THEN \E s \in Sides : Dev(k, s) = d /\ conns[k].st[s] # "none" /\ (tr = "le" \/ conns[k].tr = "br")
+       ELSE IF "connect_ignores_transport" \in Bugs /\ tr = "br"
+       THEN \E s \in Sides : Dev(k, s) = d /\ conns[k].st[s] # "none" /\ Peer(k, s) = call[d][tr].ta
        ELSE /\ conns[k].c = d /\ conns[k].st.c # "none"
-            /\ conns[k].tr = call[d].tr /\ conns[k].pa = call[d].ta
+            /\ conns[k].tr = tr /\ conns[k].pa = call[d][tr].ta
 
-RetConnect(d, k) ==
+RetConnect(d, tr, k) ==
     /\ Idle
-    /\ call[d].on /\ k \in Ks /\ Returnable(d, k)
-    /\ rets' = Append(rets, [d |-> d, k |-> k, tr |-> call[d].tr, ta |-> call[d].ta])
+    /\ tr \in Trs /\ call[d][tr].on /\ k \in Ks /\ Returnable(d, tr, k)
+    /\ rets' = Append(rets, [d |-> d, k |-> k, tr |-> tr, ta |-> call[d][tr].ta])
     /\ conns' = [conns EXCEPT ![k].ret = TRUE]
-    /\ call' = [call EXCEPT ![d] = NoCall]
+    /\ call' = [call EXCEPT ![d][tr] = NoCall]
     /\ quiesced' = FALSE
     /\ UNCHANGED <<adv, advd, scan, pend, evq, heard, seen, cnt>>
 
 Send(k, s) ==
     /\ Idle
-    /\ k \in Ks /\ conns[k].st[s] = "up" /\ conns[k].ns[s] < MaxPdus /\ cnt.send < MaxSends
+    /\ k \in Ks /\ conns[k].tr \in Trs /\ conns[k].st[s] = "up" /\ conns[k].ns[s] < MaxPdus /\ cnt.send < MaxSends
     \* a PDU sent after the host asked for the disconnection races with the Disconnect command (commands
     \* wait for their turn, data does not): it leaves before the terminate or finds the connection gone
     \* (and once one of them found the connection gone, so do all later ones)
@@ -374,19 +435,20 @@ Send(k, s) ==
 \* ---- the link
 \* the controllers LocalLink.find_*_controller may pick for destination address a
 Holders(tr, a) ==
-    IF tr = "br" THEN {Owner(a)} \cap Devs
+    IF tr \in Paged THEN {Owner(a)} \cap Devs
+    ELSE IF "route_by_controller_addr" \in Bugs THEN {d \in Devs : a \in {<<d, "pub">>, <<d, "rnd">>}}
     ELSE {Dev(ks[1], ks[2]) : ks \in {x \in AllCtl : /\ conns[x[1]].tr = "le"
                                                       /\ (IF "match_peer_addr" \in Bugs THEN Peer(x[1], x[2]) ELSE Self(x[1], x[2])) = a}}
 \* the connection a controller finds for the sender address it is given
 Targets(e, tr, stamp) == {ks \in CtlAt(e) : conns[ks[1]].tr = tr /\ Peer(ks[1], ks[2]) = stamp}
 
 Stamp(k, s, id) ==
-    IF conns[k].tr = "br" THEN <<Dev(k, s), "pub">>
+    IF conns[k].tr \in Paged THEN <<Dev(k, s), "pub">>
     ELSE IF id # TERM /\ "stamp_random" \in Bugs THEN <<Dev(k, s), "rnd">> ELSE Self(k, s)
 
 \* the PDUs queued before the terminate left the controller while it still held the connection
 TermBehind(k, s) == \E i \in 1..Len(conns[k].out[s]) : conns[k].out[s][i] = TERM
-Established(k) == conns[k].link # "setup" /\ (conns[k].tr = "br" => conns[k].h.c # 0)
+Established(k) == conns[k].link # "setup" /\ (conns[k].tr \in Paged => conns[k].h.c # 0)
 CanCross(k, s) == k \in Ks /\ conns[k].out[s] # <<>> /\ Established(k)
 
 \* the PDU (or the terminate) is dropped: the sender's controller lost the connection, no
@@ -431,6 +493,8 @@ LinkTerm(k, s, t) ==
 Disconnect(k, s) ==
     /\ Idle
     /\ k \in Ks /\ conns[k].st[s] = "up" /\ ~conns[k].want[s] /\ cnt.disc < MaxDisc
+    \* (what happens to an (e)SCO link whose ACL connection is disconnected under it is outside this model)
+    /\ conns[k].tr = "br" => ~ScoLive(k)
     /\ conns' = [conns EXCEPT ![k].want[s] = TRUE]
     /\ cnt' = [cnt EXCEPT !.disc = @ + 1]
     /\ quiesced' = FALSE
@@ -474,7 +538,7 @@ Propagated ==
     /\ \A d \in Devs : evq[d] = <<>> /\ ~MustLinkConnect(d)
     /\ \A k \in Ks : /\ Established(k)
                      /\ \A s \in Sides : conns[k].out[s] = <<>> /\ ~conns[k].want[s]
-    /\ \A d \in Devs : call[d].on => ~\E k \in Ks : Returnable(d, k)
+    /\ \A d \in Devs, tr \in Trs : call[d][tr].on => ~\E k \in Ks : Returnable(d, tr, k)
 
 Quiesce ==
     /\ Idle
@@ -495,13 +559,16 @@ Next ==
     \/ \E s, d \in Devs, kind \in Kinds, flav \in Flavs : HearAdv(s, d, kind, flav)
     \/ \E s, d \in Devs, kind \in Kinds, flav \in Flavs : HearRsp(s, d, kind, flav)
     \/ \E s, d \in Devs, kind \in Kinds, what \in {"adv", "advrsp"} : Advert(s, <<d, kind>>, what)
-    \/ \E d, e \in Devs, tr \in Transports, kind, own \in Kinds : Call(d, tr, <<e, kind>>, own)
+    \/ \E d, e \in Devs, tr \in Transports, kind \in Kinds, own \in OwnK : Call(d, tr, <<e, kind>>, own)
     \/ \E d \in Devs, h \in 1..MaxH : LinkConnect(d, h)
     \/ \E k \in KK, e \in Devs, h \in 1..MaxH : ConnectInd(k, e, h)
     \/ \E k \in KK : ConnFail(k)
     \/ \E k \in KK, h \in 1..MaxH : ClassicAccept(k, h)
     \/ \E k \in KK, h \in 1..MaxH : ClassicAccepted(k, h)
-    \/ \E d \in Devs, k \in KK : RetConnect(d, k)
+    \/ \E k \in KK, s \in Sides : ScoCall(k, s)
+    \/ \E k \in KK, h \in 1..MaxH : ScoAccept(k, h)
+    \/ \E k \in KK, h \in 1..MaxH : ScoAccepted(k, h)
+    \/ \E d \in Devs, tr \in Trs, k \in KK : RetConnect(d, tr, k)
     \/ \E k \in KK, s \in Sides : Send(k, s)
     \/ \E k \in KK, s \in Sides : LinkDrop(k, s)
     \/ \E k \in KK, s \in Sides, t \in KK \X Sides : LinkData(k, s, t)
@@ -518,7 +585,7 @@ Spec == Init /\ [][Next]_vars
 TypeOK ==
     /\ \A d \in Devs : adv[d].kind \in Kinds /\ adv[d].flav \in Flavs /\ scan[d] \in {"off", "passive", "active"}
     /\ Len(conns) <= MaxConns
-    /\ \A k \in Ks : /\ conns[k].tr \in {"le", "br"} /\ conns[k].link \in {"setup", "open", "closed", "failed"}
+    /\ \A k \in Ks : /\ conns[k].tr \in {"le", "br", "sco"} /\ (conns[k].tr = "sco") = (conns[k].acl # 0) /\ conns[k].link \in {"setup", "open", "closed", "failed"}
                      /\ \A s \in Sides : conns[k].st[s] \in {"none", "up", "down"} /\ conns[k].h[s] \in 0..MaxH
 
 \* a connection joins the initiator and the owner of the address it asked for, and nobody else
@@ -529,7 +596,8 @@ CallerGets ==
     \A i \in 1..Len(rets) :
         LET r == rets[i] IN conns[r.k].c = r.d /\ conns[r.k].pa = r.ta /\ conns[r.k].tr = r.tr
 
-\* handles of connections a host holds as live are pairwise distinct; so are the controller's
+\* handles of the links (LE, BR/EDR ACL, (e)SCO) a host holds as live are pairwise distinct; so are
+\* those of the links a controller holds
 Handles ==
     \A d \in Devs :
         /\ \A x, y \in HostAt(d) : x # y => conns[x[1]].h[x[2]] # conns[y[1]].h[y[2]]
@@ -563,9 +631,9 @@ Delivered ==    \* every PDU sent on a connection that is still open has been ha
     quiesced => \A k \in Ks : conns[k].link = "open" =>
         \A s \in Sides : Len(conns[k].got[s]) = conns[k].ns[Other(s)]
 CallsDone ==    \* a connect call still waits only if its target cannot be reached
-    quiesced => \A d \in Devs : call[d].on =>
-        /\ ~\E k \in Ks : conns[k].c = d /\ conns[k].tr = call[d].tr /\ conns[k].pa = call[d].ta /\ ~conns[k].ret
-        /\ call[d].tr = "le"
+    quiesced => \A d \in Devs, tr \in Trs : call[d][tr].on =>
+        /\ ~\E k \in Ks : conns[k].c = d /\ conns[k].tr = tr /\ conns[k].pa = call[d][tr].ta /\ ~conns[k].ret
+        /\ tr = "le"
 ScanGiven ==    \* scanners have been given the data of everyone who advertises
     quiesced => \A s, d \in Devs : ~ScanOwed(s, d)
 =============================================================================
